@@ -453,7 +453,10 @@ class Channel:
             if kind == "past":
                 if nxt == 0:
                     return None
-                w.rf_write(arr[:2], nxt - 1)
+                # the sample just before the next free one, the very first sample of the session, one in between
+                self.npast = getattr(self, "npast", 0) + 1
+                at = [nxt - 1, 0, nxt // 2][self.npast % 3]
+                w.rf_write(arr[:2], at if self.npast % 2 else np.uint64(at))
             elif kind == "first-offset-nonzero":
                 w.rf_write_blocks(arr, [nxt, nxt + 10], [1, 3])
             elif kind == "offsets-not-increasing":
@@ -808,7 +811,8 @@ class CChannel(Channel):
         if kind == "past":
             if nxt == 0:
                 return None
-            rc = self._cmd("w %d 2" % (nxt - 1))
+            self.npast = getattr(self, "npast", 0) + 1
+            rc = self._cmd("w %d 2" % [nxt - 1, 0, nxt // 2][self.npast % 3])
         elif kind == "first-offset-nonzero":
             rc = self._cmd("b %d 2 %d 1 %d %d" % (L + 4, g0, g0 + L + 5, L + 2))
         elif kind == "offsets-not-increasing":
